@@ -1,5 +1,7 @@
 """real-torch side of C14 replays: the real AttentionModelPolicy (random weights, eval mode unless asked otherwise) decodes
-instance X alone and inside several batch compositions; greedy actions / reward / log-likelihood must agree"""
+instance X alone and inside several batch compositions.  Compared: the decoder's logits for X at every step under the same
+forced actions (the quantity the symbolic check talks about), and the greedy actions / reward / log-likelihood of the
+public forward pass (single-start, or multi-start when num_starts > 1)."""
 import torch
 
 
@@ -9,33 +11,72 @@ def run_am(p):
         from rl4co.models.zoo.am.policy import AttentionModelPolicy
 
         name, n = p["env"], max(p["n"], 4)
+        S = p.get("num_starts", 0) or 0
         bad = []
-        for seed in range(3):
+        for seed in range(6):
             torch.manual_seed(seed)
-            gp = dict(num_loc=n) if name != "mtvrp" else dict(num_loc=n, variant_preset="all")
+            gp = dict(num_loc=n)
+            if name == "mtvrp":
+                gp["variant_preset"] = "all"
+            if name == "mtsp":
+                gp.update(min_num_agents=1, max_num_agents=n - 1)  # instances of one batch may differ in every field
             env = get_env(name, generator_params=gp)
             pol = AttentionModelPolicy(env_name=name, embed_dim=16, num_heads=2, num_encoder_layers=1, normalization=p["norm"])
             pol = pol.train() if p.get("train_mode") else pol.eval()
-            gen = env.generator(batch_size=[2])
+            gen = env.generator(batch_size=[3])
+            if name == "mtsp":
+                gen["num_agents"] = torch.tensor([1, n - 1, 2])[:3].clamp(max=n - 1)
             X, Y = gen[0:1], gen[1:2]
+
+            def trace(tds, pos, forced=None):
+                td = env.reset(torch.cat(tds, 0).clone())
+                with torch.no_grad():
+                    hidden, _ = pol.encoder(td)
+                    td, _, cache = pol.decoder.pre_decoder_hook(td, env, hidden, 0)
+                    outs, acts = [], []
+                    for t in range(4 * n + 4):
+                        logits, mask = pol.decoder(td, cache, 0)
+                        a = logits.masked_fill(~mask, float("-inf")).argmax(-1)
+                        if forced is not None and t < len(forced):
+                            a[pos] = forced[t]
+                        outs.append(torch.where(mask[pos], logits[pos], torch.zeros(())).clone())
+                        acts.append(int(a[pos]))
+                        td.set("action", a)
+                        td = env.step(td)["next"]
+                        if bool(td["done"].all()):
+                            break
+                return outs, acts
 
             def dec(tds):
                 td = env.reset(torch.cat(tds, 0).clone())
                 with torch.no_grad():
+                    if S > 1:
+                        return pol(td, env, decode_type="multistart_greedy", num_starts=S, select_best=False)
                     return pol(td, env, decode_type="greedy")
 
             try:
                 solo = dec([X])
+                solo_lg, solo_acts = trace([X], 0)
             except Exception as e:  # noqa: BLE001
                 bad.append(f"decoding a single instance (batch size 1) raises {type(e).__name__}: {str(e)[:120]}")
                 break
             for comp, pos in (([X, Y], 0), ([Y, X], 1), ([X, X, Y], 1)):
+                Bc = len(comp)
+                if S <= 1:
+                    lg, _ = trace(comp, pos, forced=solo_acts)
+                    for t in range(min(len(lg), len(solo_lg))):
+                        if not torch.allclose(lg[t], solo_lg[t], atol=1e-4, rtol=1e-4):
+                            bad.append(f"seed {seed}: step {t}: logits of X at position {pos} of a batch of {Bc} differ from its logits alone by {float((lg[t] - solo_lg[t]).abs().max()):.4g} (same forced actions {solo_acts[:t]})")
+                            break
                 out = dec(comp)
-                L = min(out["actions"].shape[1], solo["actions"].shape[1])
-                if out["actions"][pos, :L].tolist() != solo["actions"][0, :L].tolist() or abs(float(out["reward"][pos]) - float(solo["reward"][0])) > 1e-4 \
-                        or abs(float(out["log_likelihood"][pos]) - float(solo["log_likelihood"][0])) > 1e-3:
-                    bad.append(f"seed {seed}: instance X decoded at position {pos} of a batch of {len(comp)}: actions {out['actions'][pos].tolist()} reward {float(out['reward'][pos]):.5f} "
-                               f"vs alone: actions {solo['actions'][0].tolist()} reward {float(solo['reward'][0]):.5f}")
+                for s_ in range(max(S, 1)):
+                    rb, rs = s_ * Bc + pos, s_
+                    L = min(out["actions"].shape[1], solo["actions"].shape[1])
+                    if out["actions"][rb, :L].tolist() != solo["actions"][rs, :L].tolist() or abs(float(out["reward"][rb]) - float(solo["reward"][rs])) > 1e-4 \
+                            or abs(float(out["log_likelihood"][rb]) - float(solo["log_likelihood"][rs])) > 1e-3:
+                        bad.append(f"seed {seed}: instance X{' start ' + str(s_) if S > 1 else ''} decoded at position {pos} of a batch of {Bc}: actions {out['actions'][rb].tolist()} reward {float(out['reward'][rb]):.5f} "
+                                   f"vs alone: actions {solo['actions'][rs].tolist()} reward {float(solo['reward'][rs]):.5f}")
+                        break
             if bad:
                 break
         return {"violations": bad[:3]}
